@@ -40,6 +40,7 @@ import (
 	"github.com/containerd/stargz-snapshotter/estargz"
 	commonmetrics "github.com/containerd/stargz-snapshotter/fs/metrics/common"
 	"github.com/containerd/stargz-snapshotter/metadata"
+	"github.com/containerd/stargz-snapshotter/util/verifhook"
 	digest "github.com/opencontainers/go-digest"
 	"golang.org/x/sync/errgroup"
 	"golang.org/x/sync/semaphore"
@@ -83,6 +84,7 @@ func (vr *VerifiableReader) loadLastVerifyErr() error {
 	vr.lastVerifyErrMu.Lock()
 	err := vr.lastVerifyErr
 	vr.lastVerifyErrMu.Unlock()
+	verifhook.Gate("reader.vt.loaded", vr, err != nil)
 	return err
 }
 
@@ -98,6 +100,7 @@ func (vr *VerifiableReader) VerifyTOC(tocDigest digest.Digest) (Reader, error) {
 	vr.prohibitVerifyFailure = true
 	lastVerifyErr := vr.loadLastVerifyErr()
 	vr.prohibitVerifyFailureMu.Unlock()
+	verifhook.Gate("reader.vt.unlocked", vr)
 	if err := lastVerifyErr; err != nil {
 		return nil, fmt.Errorf("content error occurs during caching contents: %w", err)
 	}
@@ -242,6 +245,7 @@ func (vr *VerifiableReader) readAndCache(id uint32, fr io.Reader, chunkOffset, c
 		r.Close()
 		return nil
 	}
+	verifhook.Gate("reader.rac.probed", vr, id, chunkOffset)
 
 	// missed cache, needs to fetch and add it to the cache
 	br := bufio.NewReaderSize(fr, int(chunkSize))
@@ -253,9 +257,11 @@ func (vr *VerifiableReader) readAndCache(id uint32, fr io.Reader, chunkOffset, c
 		return err
 	}
 	defer w.Close()
+	verifhook.Gate("reader.rac.read", vr, id, chunkOffset)
 	v, err := vr.verifier(id, chunkDigest)
 	if err != nil {
 		vr.prohibitVerifyFailureMu.RLock()
+		verifhook.Event("reader.rac.decide", vr, id, chunkOffset, vr.prohibitVerifyFailure)
 		if vr.prohibitVerifyFailure {
 			vr.prohibitVerifyFailureMu.RUnlock()
 			return fmt.Errorf("verifier not found: %w", err)
@@ -274,6 +280,7 @@ func (vr *VerifiableReader) readAndCache(id uint32, fr io.Reader, chunkOffset, c
 	if v != nil && !v.Verified() {
 		err := fmt.Errorf("invalid chunk")
 		vr.prohibitVerifyFailureMu.RLock()
+		verifhook.Event("reader.rac.decide", vr, id, chunkOffset, vr.prohibitVerifyFailure)
 		if vr.prohibitVerifyFailure {
 			vr.prohibitVerifyFailureMu.RUnlock()
 			w.Abort()
@@ -283,6 +290,7 @@ func (vr *VerifiableReader) readAndCache(id uint32, fr io.Reader, chunkOffset, c
 		vr.prohibitVerifyFailureMu.RUnlock()
 	}
 
+	verifhook.Gate("reader.rac.commit", vr, id, chunkOffset)
 	return w.Commit()
 }
 
